@@ -107,23 +107,24 @@ Implicit Types (m : mgr A) (rn : list (node A)) (s : lstream A).
 (* ---------------------------------------------------------------- an entry that stays *)
 Definition kept (now : Z) (k : key) m : Prop := has_key k m /\ stable now k m.
 
-Lemma gc_go_keeps : forall thr ta (es : list (key * (list A * Z))) k,
-  In k (map fst es) -> (forall t, In (k, t) ta -> t > thr) -> In k (map fst (snd (gc_go thr ta es))).
+Lemma gc_go_keeps : forall fuel thr ta (es : list (key * (list A * Z))) k,
+  In k (map fst es) -> (forall t, In (k, t) ta -> t > thr) -> In k (map fst (snd (gc_go fuel thr ta es))).
 Proof.
-  induction ta as [|[k' t'] ta IH]; intros es k Hk Hs; simpl; auto.
+  induction fuel as [|fuel IH]; intros thr ta es k Hk Hs; simpl; auto.
+  destruct ta as [|[k' t'] ta]; simpl; auto.
   destruct (t' >? thr) eqn:E; simpl; auto.
   apply IH.
   - apply dict_del_keys; split; auto. intros ->. specialize (Hs t' (or_introl eq_refl)). lia.
-  - intros t Ht. apply Hs; right; auto.
+  - intros t Ht. apply drop_stamps_In in Ht. apply Hs; right; tauto.
 Qed.
 
 Lemma kept_gc : forall now k m, kept now k m -> kept now k (m_gc now m).
 Proof.
   intros now k m [Hk Hs]. unfold kept, has_key, stable in *. unfold m_gc.
   destruct (m_timeout m) as [to|] eqn:E.
-  - pose proof (gc_go_keeps (now - to) (m_times m) (m_entries m) k Hk Hs) as G.
-    pose proof (gc_go_times_sub A (now - to) (m_times m) (m_entries m)) as T.
-    destruct (gc_go (now - to) (m_times m) (m_entries m)) as [ta es]; simpl in *.
+  - pose proof (gc_go_keeps (length (m_times m)) (now - to) (m_times m) (m_entries m) k Hk Hs) as G.
+    pose proof (gc_go_times_sub A (length (m_times m)) (now - to) (m_times m) (m_entries m)) as T.
+    destruct (gc_go (length (m_times m)) (now - to) (m_times m) (m_entries m)) as [ta es]; simpl in *.
     split; auto.
   - rewrite E. split; auto.
 Qed.
@@ -141,8 +142,9 @@ Qed.
 
 Lemma kept_delete : forall now k k' m, kept now k m -> k <> k' -> kept now k (m_delete k' m).
 Proof.
-  intros now k k' m [Hk Hs] Hn. unfold kept, has_key, stable, m_delete in *; simpl. split; auto.
-  apply dict_del_keys; auto.
+  intros now k k' m [Hk Hs] Hn. unfold kept, has_key, stable, m_delete in *; simpl. split.
+  - apply dict_del_keys; auto.
+  - destruct (m_timeout m); auto. intros t Ht. apply drop_stamps_In in Ht. apply Hs; tauto.
 Qed.
 
 Lemma join_fold_keys : forall now (new es : list (key * (list A * Z))) k,
